@@ -19,6 +19,7 @@ import (
 	"os"
 	"sort"
 	"strings"
+	"time"
 
 	"github.com/dolthub/go-mysql-server/sql"
 	"github.com/dolthub/go-mysql-server/sql/plan"
@@ -228,7 +229,12 @@ func cutOf(c sql.MySQLRangeCut) cut {
 }
 
 // lookupOf reads the index lookup of the analysed plan (nil without an index access).
-func lookupOf(db *eng.DB, s *eng.Session, t *tableDef, text string) (*lookupJ, string) {
+func lookupOf(db *eng.DB, s *eng.Session, t *tableDef, text string) (lk *lookupJ, how string) {
+	defer func() {
+		if r := recover(); r != nil { // a panic of the analyzer is an outcome of Exec already
+			lk, how = nil, "analyze-panic"
+		}
+	}()
 	ctx := s.Ctx()
 	node, err := db.Engine.AnalyzeQuery(ctx, text)
 	if err != nil {
@@ -248,7 +254,7 @@ func lookupOf(db *eng.DB, s *eng.Session, t *tableDef, text string) (*lookupJ, s
 	if ita == nil {
 		return nil, "scan"
 	}
-	lk := &lookupJ{Has: false, Exact: !hasFilter, Index: ita.Index().ID(), Cols: []int{}, Colls: []string{}, Ranges: [][]rce{}, Dom: [][]Value{}}
+	lk = &lookupJ{Has: false, Exact: !hasFilter, Index: ita.Index().ID(), Cols: []int{}, Colls: []string{}, Ranges: [][]rce{}, Dom: [][]Value{}}
 	if !ita.IsStatic() {
 		return lk, "lookup-dynamic"
 	}
@@ -492,15 +498,46 @@ func keyKind(t *tableDef, lk *lookupJ) string {
 	return "other"
 }
 
+// execTimed runs one statement under a watchdog: an engine call that does not return (a range
+// operation that never terminates allocates without bound) is the outcome "hang"; the driver records
+// it, reports and exits, because the stuck goroutine cannot be stopped.
+func execTimed(s *eng.Session, q string) eng.Result {
+	ch := make(chan eng.Result, 1)
+	go func() { ch <- s.Exec(q) }()
+	select {
+	case res := <-ch:
+		return res
+	case <-time.After(stmtTimeout):
+		return eng.Result{Kind: "hang", Msg: fmt.Sprintf("no result after %s", stmtTimeout), Rows: [][]Value{}}
+	}
+}
+
+var stmtTimeout = 15 * time.Second
+
+func (r *runner) finish(mode string) {
+	r.w.Close()
+	r.rep.Extra["result_kinds"] = r.kinds
+	r.rep.Extra["index_use"] = r.idxUse
+	r.rep.Extra["features_nontrivial"] = r.feats
+	r.rep.Extra["lookups_without_filter_above"] = r.exact
+	fmt.Fprintf(os.Stderr, "%s: %d cases, %d through an index %v\n", mode, r.rep.Cases, r.rep.Nontrivial, r.idxUse)
+	r.rep.Emit()
+}
+
 func (r *runner) runCase(db *eng.DB, s *eng.Session, t *tableDef, id int, q *Query, shape string, star bool, rnd *rand.Rand) {
 	ti := render(q, "ti", star)
 	tn := render(q, "tn", star)
 	if showSQL {
 		fmt.Println(ti)
 	}
-	ri := s.Exec(ti)
-	rn := s.Exec(tn)
-	lk, how := lookupOf(db, s, t, ti)
+	ri := execTimed(s, ti)
+	rn := eng.Result{Kind: "skipped", Rows: [][]Value{}}
+	var lk *lookupJ
+	how := "hang"
+	if ri.Kind != "hang" {
+		rn = execTimed(s, tn)
+		lk, how = lookupOf(db, s, t, ti)
+	}
 	tags := Tags(q)
 	for _, c := range usedCols(q.Where) {
 		tags = append(tags, "col:"+t.Cols[c].Ty+colSuffix(t.Cols[c]))
@@ -525,6 +562,11 @@ func (r *runner) runCase(db *eng.DB, s *eng.Session, t *tableDef, id int, q *Que
 	r.kinds[ri.Kind+"/"+rn.Kind]++
 	r.idxUse[kk]++
 	r.idxUse["how:"+how]++
+	if ri.Kind == "hang" || rn.Kind == "hang" {
+		r.rep.Extra["aborted"] = fmt.Sprintf("case %d did not return: %s", id, ti)
+		r.finish("aborted")
+		os.Exit(0)
+	}
 	if key := fmt.Sprintf("%d|%s", r.ndb, ti); lk != nil && !r.seen[key] {
 		r.seen[key] = true
 		r.rep.Nontrivial++
@@ -679,13 +721,7 @@ func main() {
 	default:
 		vio.Fatal("unknown mode %s", *mode)
 	}
-	w.Close()
-	r.rep.Extra["result_kinds"] = r.kinds
-	r.rep.Extra["index_use"] = r.idxUse
-	r.rep.Extra["features_nontrivial"] = r.feats
-	r.rep.Extra["lookups_without_filter_above"] = r.exact
-	fmt.Fprintf(os.Stderr, "%s: %d cases, %d through an index %v\n", *mode, r.rep.Cases, r.rep.Nontrivial, r.idxUse)
-	r.rep.Emit()
+	r.finish(*mode)
 }
 
 // ---------------------------------------------------------------- exec mode
